@@ -145,6 +145,11 @@ Definition sort_by_id (l : list (N * bytes)) : list (N * bytes) := fold_right in
 Definition contribution_term (c : N * bytes) : term := THash 2 [TExp (fst c); TBytes (snd c)].
 Definition sid_term (cs : list (N * bytes)) : term := THash 3 (map contribution_term (sort_by_id cs)).
 
+(* sub-context pairwise seed (session.Context.SubContext): an injective function of the first
+   64 bytes of the PARENT pairwise seed and the sorted sub-quorum data; the pairwise terms of
+   the zero shares of a signing sub-quorum are samples of it *)
+Definition sub_seed_term (parent : bytes) (qdata : bytes) : term := THash 4 [TBytes parent; TBytes qdata].
+
 (* zero shares: party i adds the pairwise term with every larger id and subtracts the one
    with every smaller id (przs.SampleZeroShare); s a b is the term of the pair a < b *)
 Local Open Scope Z_scope.
